@@ -364,11 +364,15 @@ def step (st : St) : Op → St × Out
         match s.2 with
         | .ok _ => (s.1, .done)
         | .error _ =>
-          -- `except DuplicateHostmask: user.removeHostmask(hostmask)` (a plain ValueError is
-          -- reported without rollback, but setUser raises none for a name without line breaks)
-          (match removeHostmask u1 h with
-           | .ok u2 => ({ s.1 with db := s.1.db.putUser u2 }, .rolledBack)
-           | .error e => (s.1, .err e))
+          -- `except DuplicateHostmask: user.removeHostmask(hostmask)` on the live object, i.e.
+          -- on the record as it is stored now (a plain ValueError is reported without rollback,
+          -- but setUser raises none for a name without line breaks)
+          (match s.1.db.getUserById id with
+           | none => (s.1, .noUser)
+           | some u' =>
+             match removeHostmask u' h with
+             | .ok u2 => ({ s.1 with db := s.1.db.putUser u2 }, .rolledBack)
+             | .error e => (s.1, .err e))
   | .rmHost id h => withUser st id fun u =>
       match removeHostmask u h with
       | .error e => (st, .err e)
@@ -387,16 +391,18 @@ def step (st : St) : Op → St × Out
       let st1 := clearAuth st u
       let s := setUser st1 { u with auth := [] }
       (s.1, outOfUnit s.2)
-  | .rename id name => withUser st id fun u =>
+  | .rename id name => withUser st id fun _ =>
       let g := getUserId st name
       match g.2 with
       | .ok _ => (g.1, .exists_)
       | .error .key =>
         if hasLineBreak name then (g.1, .err .value) else    -- checked by the plugin before renaming
-        let u1 := { u with name := name }
-        let st1 := { g.1 with db := g.1.db.putUser u1 }
-        let s := setUser st1 u1
-        (s.1, outOfUnit s.2)
+        -- the live object, as stored after the lookup
+        withUser g.1 id fun u =>
+          let u1 := { u with name := name }
+          let st1 := { g.1 with db := g.1.db.putUser u1 }
+          let s := setUser st1 u1
+          (s.1, outOfUnit s.2)
       | .error e => (g.1, .err e)
   | .secure id b => withUser st id fun u =>
       let u1 := { u with secure := b }
